@@ -167,7 +167,7 @@ def main():
             path = write_replay('witness', dict(property=prop, obligation=po['name'], function=po['function'], solver=po['detail'], clause=wit[0]['clause'], witness=wit[0]['witness'], message=wit[0]['message'], module=[r['module'] for r in rres]))
             violations.append((path, ''))
             for f in wit: f['_used'] = True
-        elif po['was_discharged'] and po['status'] in ('not-discharged', 'unsupported'):
+        elif po['was_discharged'] and po['status'] == 'not-discharged':          # (a function that left the verifiable subset is UNDECIDED, not a violation)
             path = write_replay('obligation', dict(property=prop, obligation=po['name'], function=po['function'], status=po['status'], solver_output=po['detail'],
                                                    note='obligation discharged on the pinned tree, not discharged on the current source; bounded search of engine R found no failing input'))
             violations.append((path, ' no-failing-input-found'))
@@ -191,7 +191,7 @@ def main():
     # vacuity: zero obligations / zero evaluations
     n_obl = len([o for o in all_obl if not o['name'].split('#')[1].startswith('canary')])
     n_dis = len([o for o in all_obl if o['status'] == 'discharged'])
-    if cfg.get('P') and n_obl == 0: broken.append('engine P generated zero obligations')
+    if cfg.get('P') and n_obl == 0 and not any(fr['status'] == 'UNSUPPORTED' for fr in pres): broken.append('engine P generated zero obligations')
     evals = sum(s['evaluations'] for rr in rres for s in rr['stats'].values())
     distinct = sum(s['distinct_nontrivial'] for rr in rres for s in rr['stats'].values())
     if cfg.get('R') and evals == 0 and not broken: broken.append('engine R evaluated zero cases')
